@@ -12,6 +12,7 @@
 From Coq Require Import ZArith List Bool.
 From ADF Require Model.FileIO Proofs.FileIOFr Proofs.FileIOP.
 From ADF Require Import Spec.Names Model.Chain Proofs.ChainFrameP.
+From ADF Require Model.CacheChain Proofs.CacheFrameP.
 Import ListNotations.
 Local Open Scope Z_scope.
 
@@ -141,7 +142,27 @@ Theorem C18_dir_remove_frame : forall intl G d n d' b, remove intl G d n = Some 
   exists sib, (forall x, x <> b -> x <> sib -> d_hp d' x = d_hp d x) /\ (sib <> b -> link_only d d' sib) /\ (sib <> 0 -> forall i, d_ht d' i = d_ht d i).
 Proof. exact remove_frame. Qed.
 
+(* ---- the directory cache, on Model/CacheChain.v (tied by the raw cache-chain correspondence of checks/cachecorr.py): adfAddInCache changes the
+        LAST cache block of the directory only (the record appended, or the block the allocator named linked behind it); adfDelFromCache changes the
+        one block holding the record and releases at most one block, a block of this chain; after any of the three operations the chain
+        consists of its old blocks plus at most the newly named one ---- *)
+Theorem C18_cache_add_frame : forall c r nb, c <> [] ->
+  exists pre b rs, c = pre ++ [(b, rs)] /\ (CacheChain.c_add c r nb = pre ++ [(b, rs ++ [r])] \/ CacheChain.c_add c r nb = pre ++ [(b, rs); (nb, [r])]).
+Proof. exact CacheFrameP.c_add_frame. Qed.
+
+Theorem C18_cache_del_frame : forall c k, (forall blk, In blk (fst (CacheChain.c_del c k)) -> CacheFrameP.del_block_ok c k blk)
+  /\ incl (snd (CacheChain.c_del c k)) (map fst c) /\ (length (snd (CacheChain.c_del c k)) <= 1)%nat.
+Proof. exact CacheFrameP.c_del_frame. Qed.
+
+Theorem C18_cache_blocks : forall c r nb k,
+  incl (map fst (CacheChain.c_add c r nb)) (map fst c ++ [nb]) /\ incl (map fst (fst (CacheChain.c_del c k))) (map fst c)
+  /\ incl (map fst (fst (CacheChain.c_update c r nb))) (map fst c ++ [nb]).
+Proof. exact CacheFrameP.cache_ops_blocks. Qed.
+
 Print Assumptions C18_prefix_integrity.
+Print Assumptions C18_cache_add_frame.
+Print Assumptions C18_cache_del_frame.
+Print Assumptions C18_cache_blocks.
 Print Assumptions C18_dir_create_frame.
 Print Assumptions C18_dir_remove_frame.
 Print Assumptions H.C18_handle_read.
